@@ -90,6 +90,19 @@ type ContractSet struct {
 	Order    []*Contract
 	Defaults map[string]string // external package path -> pure | readonly
 	Files    []string
+	Sites    []SiteDecl // reviewed sources of nondeterminism (C15) and writes to package-level state (C18)
+}
+
+// SiteDecl: "site <func> <kind> <count> <proved|reviewed>: <reason>" — accounts for <count> sites of the given
+// kind in the function. "proved": an order-fixing obligation in the function's own contract (same property)
+// covers it; "reviewed": an argument the verifier does not check (reported as an assumption).
+type SiteDecl struct {
+	Func, Kind  string
+	Count       int
+	Disposition string
+	Reason      string
+	File        string
+	Line        int
 }
 
 func NewContractSet() *ContractSet {
@@ -159,6 +172,17 @@ func (cs *ContractSet) ParseFile(path, pkgPath string, ext bool) error {
 				return fmt.Errorf("%s:%d: bad default line", path, ln)
 			}
 			cs.Defaults[f[1]] = f[2]
+		case strings.HasPrefix(line, "site "):
+			head, reason, _ := strings.Cut(line[5:], ":")
+			f := strings.Fields(head)
+			if len(f) != 4 || (f[3] != "proved" && f[3] != "reviewed") {
+				return fmt.Errorf("%s:%d: bad site line (site <func> <kind> <count> proved|reviewed: reason)", path, ln)
+			}
+			n, err := strconv.Atoi(f[2])
+			if err != nil {
+				return fmt.Errorf("%s:%d: bad site count", path, ln)
+			}
+			cs.Sites = append(cs.Sites, SiteDecl{Func: f[0], Kind: f[1], Count: n, Disposition: f[3], Reason: strings.TrimSpace(reason), File: path, Line: ln})
 		case strings.HasPrefix(line, "func "):
 			name := strings.TrimSpace(line[5:])
 			cur = &Contract{PkgPath: pkgPath, Func: name, Loops: map[int]*LoopSpec{}, File: path, Line: ln, Trusted: ext}
